@@ -333,12 +333,13 @@ pub fn print_test(header: &[String], prog: &[Stmt], lay: &Layout) -> Printed {
                 lines.push(if p.rng.gen_bool(0.3) { "  ".into() } else { String::new() });
             }
             while p.rng.gen_bool(p.lay.comment_line_p.min(0.9)) {
-                lines.push(format!("{}# comment {}", if p.rng.gen_bool(0.5) { " " } else { "" }, p.rng.gen_range(0..100)));
+                lines.push(format!("{}# comment {}{}", if p.rng.gen_bool(0.5) { " " } else { "" }, p.rng.gen_range(0..100), ["", "", "", " ü", " 本"][p.rng.gen_range(0..5)]));
             }
             let ind = if p.lay.indent { "  ".repeat(depth) } else { String::new() };
             let tc = |p: &mut P<'_>| -> String {
                 if p.rng.gen_bool(p.lay.trailing_comment_p.min(0.9)) {
-                    format!("{}# c{} end loop 1 X (", if p.rng.gen_bool(0.5) { " " } else { "" }, p.rng.gen_range(0..10))
+                    // (comments may hold anything, multi-byte characters included - also as the very last character of the text)
+                    format!("{}# c{} end loop 1 X ({}", if p.rng.gen_bool(0.5) { " " } else { "" }, p.rng.gen_range(0..10), ["", "", " é", " 日本", " \u{1F600}", "ß"][p.rng.gen_range(0..6)])
                 } else {
                     String::new()
                 }
